@@ -5,6 +5,7 @@ From Coq Require Import List NArith ZArith Bool Lia.
 Import ListNotations.
 From JB Require Import Constants Bytes Utf8 Num Value Codec Order OrderProofs CodecProofs RoundtripProofs TreeOps JsonText
   Dispatch DispatchProofs Walk WalkProofs Iter IterProofs Builder BuilderProofs TreeWf EditWalk I32.
+From JB Require Import BufSt EditStProofs.
 Open Scope N_scope.
 Set Default Timeout 120.
 
@@ -213,7 +214,7 @@ Theorem concat_b_enc a b buf : wfb a = true -> wfb b = true -> wf_size (concat_t
   concat_b (enc a) (enc b) buf = Ok (buf ++ enc (concat_t a b)).
 Proof.
   intros Wa Wb Hr. pose proof (wfb_size a Wa) as Ha. pose proof (wfb_size b Wb) as Hb.
-  unfold concat_b. rewrite (rd_enc a Ha), (rd_enc b Hb). cbn [bind].
+  rewrite ?concat_b_eq. rewrite (rd_enc a Ha), (rd_enc b Hb). cbn [bind].
   rewrite (doc_hdr_type a Ha), (doc_hdr_type b Hb).
   assert (Ca : (exists l, a = VArr l) \/ (exists o, a = VObj o) \/ is_container a = false)
     by (destruct a; eauto).
@@ -275,7 +276,7 @@ Qed.
 Theorem concat_w_enc a b buf : wfb a = true -> top_ok a -> wfb b = true -> top_ok b -> wf_size (concat_t a b) = true ->
   concat_w (enc a) (enc b) buf = Ok (buf ++ enc (concat_t a b)).
 Proof.
-  intros Wa Ta Wb Tb Hr. unfold concat_w. rewrite (is_jsonb_enc a Wa Ta), (is_jsonb_enc b Wb Tb). cbn [negb orb].
+  intros Wa Ta Wb Tb Hr. rewrite ?concat_w_eq. rewrite (is_jsonb_enc a Wa Ta), (is_jsonb_enc b Wb Tb). cbn [negb orb].
   apply concat_b_enc; assumption.
 Qed.
 
@@ -378,7 +379,7 @@ Proof. destruct x as [|[]|s|n|l|o]; reflexivity. Qed.
 Theorem delete_by_name_b_enc v name buf : wfb v = true ->
   delete_by_name_b (enc v) name buf = res_map (fun x => buf ++ enc x) (delete_by_name_t v name).
 Proof.
-  intros W. pose proof (wfb_size v W) as H. unfold delete_by_name_b. rewrite (rd_enc v H). cbn [bind].
+  intros W. pose proof (wfb_size v W) as H. rewrite ?delete_by_name_b_eq. rewrite (rd_enc v H). cbn [bind].
   rewrite (doc_hdr_type v H). destruct v as [|b|s|n|l|o]; try reflexivity.
   - cbn [doc_type doc_hdr delete_by_name_t res_map]. tags. rewrite (arr_items_enc l H). cbn [bind].
     rewrite filter_map_comm.
@@ -398,7 +399,7 @@ Qed.
 
 Theorem delete_by_name_w_enc v name buf : wfb v = true -> top_ok v ->
   delete_by_name_w (enc v) name buf = res_map (fun x => buf ++ enc x) (delete_by_name_t v name).
-Proof. intros W T. unfold delete_by_name_w. rewrite (is_jsonb_enc v W T). apply delete_by_name_b_enc. exact W. Qed.
+Proof. intros W T. rewrite ?delete_by_name_w_eq. rewrite (is_jsonb_enc v W T). apply delete_by_name_b_enc. exact W. Qed.
 
 (* ---------------------------------------------------------------- delete_by_index *)
 Lemma lenZ_lenN {A} (l : list A) : Z.of_N (lenN l) = lenZ l.
@@ -407,7 +408,7 @@ Proof. unfold lenN, lenZ. apply nat_N_Z. Qed.
 Theorem delete_by_index_b_enc v i buf : wfb v = true ->
   delete_by_index_b (enc v) i buf = res_map (fun x => buf ++ enc x) (delete_by_index_t v i).
 Proof.
-  intros W. pose proof (wfb_size v W) as H. unfold delete_by_index_b. rewrite (rd_enc v H). cbn [bind].
+  intros W. pose proof (wfb_size v W) as H. rewrite ?delete_by_index_b_eq. rewrite (rd_enc v H). cbn [bind].
   rewrite (doc_hdr_type v H). destruct v as [|b|s|n|l|o]; try reflexivity.
   cbn [doc_type doc_hdr delete_by_index_t]. tags. rewrite (doc_hdr_len_arr l H), lenZ_lenN.
   (* the byte branch resolves and tests the position by the same function as the text branch (I32.v, on the generated formulas) *)
@@ -421,7 +422,7 @@ Qed.
 
 Theorem delete_by_index_w_enc v i buf : wfb v = true -> top_ok v ->
   delete_by_index_w (enc v) i buf = res_map (fun x => buf ++ enc x) (delete_by_index_t v i).
-Proof. intros W T. unfold delete_by_index_w. rewrite (is_jsonb_enc v W T). apply delete_by_index_b_enc. exact W. Qed.
+Proof. intros W T. rewrite ?delete_by_index_w_eq. rewrite (is_jsonb_enc v W T). apply delete_by_index_b_enc. exact W. Qed.
 
 (* ---------------------------------------------------------------- array_insert *)
 (* the new value as one element: ARRAY | OBJECT => container item, _ => scalar item *)
@@ -441,7 +442,7 @@ Theorem array_insert_b_enc v pos x buf : wfb v = true -> wfb x = true -> wf_size
   array_insert_b (enc v) pos (enc x) buf = Ok (buf ++ enc (array_insert_t v pos x)).
 Proof.
   intros W Wx Hr. pose proof (wfb_size v W) as H. pose proof (wfb_size x Wx) as Hx.
-  unfold array_insert_b. rewrite (rd_enc v H). cbn [bind]. rewrite (doc_hdr_type v H).
+  rewrite ?array_insert_b_eq. rewrite (rd_enc v H). cbn [bind]. rewrite (doc_hdr_type v H).
   set (len := if doc_type v =? ARRAY_CONTAINER_TAG then Z.of_N (hdr_len (doc_hdr v)) else AI_NONARRAY_LEN).
   assert (Elen : len = lenZ (base_items v)).
   { unfold len. destruct v as [|b|s|n|l|o]; cbn [doc_type base_items]; tags; try reflexivity.
@@ -469,7 +470,7 @@ Theorem array_insert_w_enc v pos x buf : wfb v = true -> top_ok v -> wfb x = tru
   wf_size (array_insert_t v pos x) = true ->
   array_insert_w (enc v) pos (enc x) buf = Ok (buf ++ enc (array_insert_t v pos x)).
 Proof.
-  intros W T Wx Tx Hr. unfold array_insert_w. rewrite (is_jsonb_enc v W T), (is_jsonb_enc x Wx Tx).
+  intros W T Wx Tx Hr. rewrite ?array_insert_w_eq. rewrite (is_jsonb_enc v W T), (is_jsonb_enc x Wx Tx).
   apply array_insert_b_enc; assumption.
 Qed.
 
